@@ -247,6 +247,7 @@ def check_C13(report, tier, seed):
     S.suite_ws_aread(report, tier, seed, "C13")
     S.suite_flush_service(report, "C13")
     S.suite_fidelity(report, tier, seed, "C13")
+    S.suite_midbatch_service(report, tier, seed, "C13")
     S.suite_reconnect_fidelity(report, tier, seed, "C13")
     S.suite_results(report, tier, seed, "C13")
 
